@@ -1,5 +1,5 @@
 import OmbottModel.Model.WsgiConc
-import OmbottModel.Lemmas.TsPropsMachine
+import OmbottModel.Lemmas.TsPropsThread
 import OmbottModel.Lemmas.WsgiConcRun
 import OmbottModel.Lemmas.WsgiConcServes
 /-!
@@ -58,14 +58,14 @@ cookies, exception or traceback and the probe found them unchanged by requests t
 theorem served_attrs_thread_local :
     (∀ k ∈ ["environ", "_env_get"], k ∈ propsOf .request) ∧
     (∀ k ∈ ["_status_line", "_status_code", "_headers", "_cookies", "body"], k ∈ propsOf .response) ∧
-    Gen.headerDictTsThreadLocal = true ∧ Gen.storesAreThreadLocal = true ∧
-    (∀ row ∈ Gen.errorsMap, row.2.2.2.2.2 = true) ∧ Gen.errorsMapReadOnly = true := by
+    Gen.tsHeaderDictThreadLocal = true ∧ Gen.tsStoresAreThreadLocal = true ∧
+    (∀ row ∈ Gen.tsErrorsMap, row.2.2.2.2.2 = true) ∧ Gen.tsErrorsMapReadOnly = true := by
   decide
 
 /-- tie to the source: every plain (not thread-local) slot or module object that the probe saw
 touched while serving was left unchanged or rewritten with equal content -/
 theorem shared_objects_read_only :
-    ∀ x ∈ Gen.sharedTouched, x.2.2 = "read-only" ∨ x.2.2 = "idempotent" := by
+    ∀ x ∈ Gen.tsSharedTouched, x.2.2 = "read-only" ∨ x.2.2 = "idempotent" := by
   decide
 
 section NonVacuity
